@@ -165,6 +165,16 @@ impl<'a> Cx<'a> {
     }
 
     fn expr(&mut self, e: &Expr, want: Option<&LT>) -> R<Tx> {
+        if self.gc_mode {
+            if let Some(tx) = self.gc_box_expr(e)? {
+                return Ok(tx);
+            }
+            if matches!(e, Expr::MethodCall(_)) {
+                if let Some(tx) = self.gc_chain_expr(e)? {
+                    return Ok(tx);
+                }
+            }
+        }
         if self.vm_mode && matches!(e, Expr::Field(_) | Expr::MethodCall(_)) {
             if let Some((term, ty)) = vm_place(&compact(&toks(e))) {
                 return Ok(pure(term, ty));
@@ -600,6 +610,11 @@ impl<'a> Cx<'a> {
     }
 
     fn cond(&mut self, e: &Expr) -> R<Tx> {
+        if self.gc_mode {
+            if let Some(tx) = self.gc_box_expr(e)? {
+                return Ok(tx);
+            }
+        }
         let c = self.expr(e, Some(&LT::Bool))?;
         if c.ty != LT::Bool {
             return self.un(format!("condition `{}` is not a modelled bool", toks(e)));
